@@ -383,6 +383,8 @@ def build_request(ex, meta):
         r["slice_wrap_return"] = True
     if o.get("option_combinators") == "1":
         r["option_combinators"] = True
+    if o.get("keep_unreachable") == "1":
+        r["keep_unreachable"] = True
     if o.get("opaque_into") == "1":
         r["opaque_into"] = True
     if "slice_group" in o:
@@ -741,9 +743,18 @@ def locate(diag, A, fname):
     fn = None
     fn_info = None
     where_line = None
+    def _expansion_site(s):
+        # a span inside a library macro (e.g. `unreachable!()` -> vstd): follow the expansion chain to the call site in the generated file
+        seen = 0
+        while s is not None and os.path.basename(s.get("file_name", "")) != os.path.basename(fname) and seen < 8:
+            s = (s.get("expansion") or {}).get("span")
+            seen += 1
+        return s
     for s in sorted(allsp, key=lambda x: 0 if x.get("is_primary") else 1):
         if os.path.basename(s["file_name"]) != os.path.basename(fname):
-            continue
+            s = _expansion_site(s)
+            if s is None:
+                continue
         ln = s["line_start"]
         for (st, en, name, info) in A.fn_ranges:
             if st <= ln <= en:
@@ -763,6 +774,10 @@ def locate(diag, A, fname):
         else:
             vstd_clause = True
             clause = f"<{s['file_name']}:{s['line_start']}>"
+            site = _expansion_site(s)
+            if site is not None:
+                clause_line = site["line_start"]
+                clause = " ".join(t["text"].strip() for t in site.get("text", []))[:400] + "   " + clause
     # labels
     labels = [s.get("label") for s in allsp if s.get("label")]
     # for a precondition failure the primary span is the call site, a secondary one the failed requires
